@@ -278,6 +278,28 @@ def _check_type_requirements_for_field(
         )
         return
 
+    # A `bits` type placed in a `struct` is read through a fixed-width block of
+    # bytes, so the field that holds it must have a size that is known at compile
+    # time (like a field of an enumeration type, below).
+    if (
+        field_is_atomic
+        and field_min_size != field_max_size
+        and referenced_type_definition.has_field("structure")
+        and referenced_type_definition.addressable_unit == ir_data.AddressableUnit.BIT
+        and type_definition.addressable_unit == ir_data.AddressableUnit.BYTE
+    ):
+        errors.append(
+            [
+                error.error(
+                    source_file_name,
+                    type_ir.source_location,
+                    "Bit-oriented {} cannot be placed in a dynamically-sized "
+                    "field.".format(_render_type(type_ir, ir)),
+                )
+            ]
+        )
+        return
+
     # If the type had no size specifier (the ':32' in 'UInt:32'), but the type is
     # fixed size, then continue as if the type's size were explicitly stated.
     if element_size is None:
